@@ -22,14 +22,14 @@ id,name,pkgdir,conf,tr=sys.argv[1:6]
 notes=open('/verif/seeded/%s/notes.txt'%name).read()
 rc=None
 import re
-m=re.search(r'mutant \S+ rc=(\d+)',tr)
+m=re.search(r"mutant \S+ rc=(\d+)",tr)
 if m: rc=int(m.group(1))
 viol=[l for l in tr.split('\n') if l.startswith('VIOLATION') or l.startswith('INCONCLUSIVE')]
 meta={"property":id,"name":name,"origin":"written by an independent sub-agent that saw only the property text and a scratch worktree of /repo",
  "needs_to_manifest":notes.strip()[:1500],
  "demo":{"file":"demo_test.go","copy_into_package_dir":pkgdir},
  "confirmed_in_scratch_worktree":{"commands":"tools/confirm_mutant.sh: demo passes without the change; git apply patch.diff; go build ./... && go test -vet=off -count=1 ./... (baseline suite passes with the change); demo fails with the change","output_tail":conf[-900:]},
- "check_run":{"command":"git -C /repo apply patch.diff; ./bin/vf check %s --tier quick; git -C /repo checkout -- ."%id,"exit_code":rc,"detected":rc==1,"lines":viol[:6]}}
+ "check_run":{"command":"tools/try_mutant.sh %s patch.diff quick (git apply to a scratch worktree of /repo HEAD; VERIF_REPO=<worktree> ./bin/vf check %s --tier quick; same result as applying to /repo and reverting)"%(id,id),"exit_code":rc,"detected":rc==1,"lines":viol[:6]}}
 json.dump(meta,open('/verif/seeded/%s/meta.json'%name,'w'),indent=1)
 print("kept",name,"detected" if rc==1 else "NOT DETECTED rc=%s"%rc)
 PYEOF
